@@ -132,7 +132,7 @@ def cases(draw):
         spec["phase_ids"] = list(draw(st.permutations(names)))[:3] if len(names) >= 3 else []
     else:
         spec["requested"], spec["phase_ids"] = [], []
-    spec["threshold"] = draw(st.sampled_from([0.1, 0.001, 1.0, 5.0, 0.0]))
+    spec["threshold"] = draw(st.sampled_from([0.1, 0.001, 1.0, 5.0, 0.0, 0.0, -0.05]))
     spec["tz"] = draw(st.sampled_from([None, None, -8, 5.5]))
     return spec
 
